@@ -869,10 +869,13 @@ void Node::note_upload_start(const PendingUploadRequest& request, std::size_t pa
     state.peer_id = request.peer_id;
     state.started_at = std::chrono::steady_clock::now();
     state.payload_size = payload_size;
+    const bool already_active = active_uploads_.contains(key);
     active_uploads_[key] = state;
 
-    const auto peer_key = peer_id_to_string(request.peer_id);
-    active_uploads_per_peer_[peer_key] += 1;
+    if (!already_active) {
+        const auto peer_key = peer_id_to_string(request.peer_id);
+        active_uploads_per_peer_[peer_key] += 1;
+    }
 
     const auto current_active = active_uploads_.size();
     auto peak = peak_active_uploads_.load(std::memory_order_relaxed);
